@@ -187,20 +187,51 @@ package subgroup_info
 //@   ensures [rootIsRoot] result1 == nil ==> result0.name == ""
 //@ end
 
+// (helper c04c) C04 ("When a workload or sub-group declares a required topology level, all of its pods placed by a
+// decision, together with its already active pods, lie in one domain ... Constraints of nested sub-groups hold
+// simultaneously with those of their parents"): the pod sets a sub-group's constraint speaks about are the pod sets AT
+// OR BELOW that sub-group in the sub-group tree. belowSG(parent, name, ps): pod set ps lies at or below the node of the
+// sub-group tree whose SubGroupInfo has this parent link and this name (a node is identified by its parent link and its
+// name: that is all a *SubGroupInfo carries besides the constraint itself; the specification language has no
+// address-of for an embedded struct, so the node is keyed by these VALUES). Least fixpoint of: a pod-set node contains
+// itself; a sub-group-set node contains its child pod sets and what its child sets contain. The one-level unfolding is
+// supplied (as `assume`, definitional) in the units that need it: GetAllPodSets (set node), common.allocatePodSet (leaf).
+//@ declare belowSG(parent *SubGroupSet, name string, ps *PodSet) bool
+// the pod-set map m names every pod set below the node / holds nothing but pod sets below the node, each under its own name
+//@ define podSetsCover(parent *SubGroupSet, name string, m map[string]*PodSet) bool = forall ps *PodSet :: belowSG(parent, name, ps) ==> ps.name in m
+//@ define podSetsOnly(parent *SubGroupSet, name string, m map[string]*PodSet) bool = forall k in m :: belowSG(parent, name, m[k]) && m[k].name == k
+
 // GetAllPodSets walks the sub-group tree recursively. Its totality (no nil child, termination) depends on the
 // nodes reachable from sgs forming a finite tree of non-nil nodes: a reachability invariant that per-function contracts
 // over this heap model cannot state (a quantifier over "all *SubGroupSet" ranges over every address). NOT decided
-// here (see report); proved is only what callers need: the result is a new map (whenever the call returns).
+// here (see report); proved: the result is a new map (whenever the call returns) that names EVERY pod set at or below
+// sgs and nothing else (C04: this is the pod-set argument the topology plugin must get for a sub-group set; the
+// recursive calls use this contract for the child sets).
 //@ func (*SubGroupSet).GetAllPodSets
-//@   props C10
+//@   props C10 C04
 //@   nopanic off
-//@   note no-panic/termination of the recursive tree walk need a reachability invariant (tree of non-nil nodes below sgs); only the freshness of the result is proved
+//@   note no-panic/termination of the recursive tree walk need a reachability invariant (tree of non-nil nodes below sgs); proved are the freshness of the result and its content relative to belowSG
+//@   assume forall ps *PodSet :: belowSG(sgs.parent, sgs.name, ps) <==> ((exists i int :: 0 <= i && i < len(sgs.podSets) && sgs.podSets[i] == ps) || (exists j int :: 0 <= j && j < len(sgs.groups) && belowSG(sgs.groups[j].parent, sgs.groups[j].name, ps)))
+//@   note the assume unfolds the definition of belowSG once at the node sgs (definitional; belowSG is constrained nowhere else in this unit)
 //@   fresh
 //@   loop 1
 //@     invariant result != nil && fresh(result)
+//@     invariant 0 - 1 <= rangeindex && rangeindex < len(sgs.podSets)
+//@     invariant forall i int :: 0 <= i && i <= rangeindex ==> sgs.podSets[i].name in result
+//@     invariant forall k in result :: result[k].name == k && (exists i int :: 0 <= i && i <= rangeindex && sgs.podSets[i] == result[k])
 //@   loop 2
 //@     invariant result != nil && fresh(result)
+//@     invariant 0 - 1 <= rangeindex && rangeindex < len(sgs.groups)
+//@     invariant forall i int :: 0 <= i && i < len(sgs.podSets) ==> sgs.podSets[i].name in result
+//@     invariant forall j int :: 0 <= j && j <= rangeindex ==> podSetsCover(sgs.groups[j].parent, sgs.groups[j].name, result)
+//@     invariant podSetsOnly(sgs.parent, sgs.name, result)
 //@   loop 3
 //@     invariant result != nil && fresh(result)
+//@     invariant forall i int :: 0 <= i && i < len(sgs.podSets) ==> sgs.podSets[i].name in result
+//@     invariant forall j int :: 0 <= j && j <= rangeindex ==> podSetsCover(sgs.groups[j].parent, sgs.groups[j].name, result)
+//@     invariant podSetsOnly(sgs.parent, sgs.name, result)
+//@     invariant forall k in visited :: k in result
 //@   ensures result != nil
+//@   ensures [coversAllBelow] podSetsCover(sgs.parent, sgs.name, result)
+//@   ensures [onlyBelow] podSetsOnly(sgs.parent, sgs.name, result)
 //@ end
